@@ -86,6 +86,30 @@ func Corpus() []CorpusCase {
 			&Property{Name: "byName", Optional: true, F: &Field{Kind: "map", Item: obj(prop("v", str("string")))}},
 			&Property{Name: "note", Optional: true, F: str("string")},
 			prop("plain", &Field{Kind: "array", Item: str("string")}))))
+	// known finding (C02): a FIRST option ending in UNSPECIFIED under a name of its own is taken as the zero
+	// value: STATUS_OLD_UNSPECIFIED = 0, STATUS_ACTIVE = 1 - no STATUS_UNSPECIFIED, options numbered from 0
+	add("enum-first-option-named-unspecified", "foo.v1", file(foo, "a",
+		&Element{Kind: "enum", N: &Nested{Kind: "enum", Name: "Status", Enum: &Enum{Name: "Status", Opts: []string{"OLD_UNSPECIFIED", "ACTIVE"}}}},
+		// the zero value spelled out with the prefix on: documented, not the finding
+		&Element{Kind: "enum", N: &Nested{Kind: "enum", Name: "Mode", Enum: &Enum{Name: "Mode", Opts: []string{"MODE_UNSPECIFIED", "ON"}}}}))
+	// README "Foo Example": an entity (keys, data, statuses, events) next to a declared object
+	add("readme-entity", "foo.v1", file(foo, "a",
+		object("Before", prop("x", str("string"))),
+		&Element{Kind: "entity", Entity: &Entity{Name: "Foo",
+			Keys:   []*EKey{{P: prop("fooId", key("id62")), Primary: true}},
+			Data:   []*Property{prop("name", str("string"))},
+			Status: []string{"ACTIVE", "INACTIVE"},
+			Events: []*EEvent{{Name: "Create", Fields: []*Property{prop("name", str("string"))}}, {Name: "Archive"}}}},
+		object("After", prop("state", objRef("", "FooState")))))
+	// an entity with a shard key, a non-key-typed key and a snake_case name part
+	add("entity-shard-keys", "acme.users.v1", file([]string{"acme", "users", "v1"}, "b",
+		&Element{Kind: "entity", Entity: &Entity{Name: "UserAccount2",
+			Keys: []*EKey{{P: prop("accountId", key("uuid")), Primary: true, Shard: true},
+				{P: prop("tenant_id", key("")), Shard: true},
+				{P: &Property{Name: "region", Required: true, F: str("string")}}},
+			Data:   []*Property{prop("tags", &Field{Kind: "array", Item: str("string")}), prop("kind", &Field{Kind: "enuminline", Enum: &Enum{Opts: []string{"A", "B"}}})},
+			Status: []string{"NEW"},
+			Events: []*EEvent{{Name: "NameChanged", Fields: []*Property{prop("to", obj(prop("v", str("string"))))}}}}}))
 	// two imports without alias that claim the same short name: the short name means the package imported last
 	for k := 0; k < 6; k++ {
 		v1, v2 := []string{"foo", "v1"}, []string{"foo", "v2"}
@@ -192,14 +216,41 @@ func EditCorpus() []EditPair {
 	plain := mk(age)
 	plain.Files[0].Elements[1].N.Enum.Opts = []string{"ACTIVE", "INACTIVE"}
 	fooP := prop("foo", obj())
+	fwd := prop("forwardedFor", objRef("j5.messaging.v1", "RequestMetadata"))
+	ups := prop("prev", objRef("j5.messaging.v1", "UpsertMetadata"))
+	topicBundle := func(kind string, extra *Property) *Bundle {
+		fields := []*Property{prop("fooId", key("id62")), prop("name", str("string"))}
+		if extra != nil {
+			fields = append(fields, extra)
+		}
+		t := &Topic{Kind: kind, Name: "Baz"}
+		if kind == "reqres" {
+			t.Req = []*Tmsg{{Fields: fields}}
+			t.Reply = []*Tmsg{{Fields: []*Property{prop("ok", str("bool"))}}}
+		} else {
+			t.Entity = "foo.v1.Baz"
+			t.Msgs = []*Tmsg{{Fields: fields}}
+		}
+		return &Bundle{Files: []*File{file(foo, "a", &Element{Kind: "topic", Topic: t})}}
+	}
 	return []EditPair{
-		{mk(), plain, "foo.v1", []EditRec{{"field", "foo/v1/a.j5s:Foo", "age scalar", "EAppendField 0 0 " + age.Coq()},
-			{"option", "foo/v1/a.j5s:Status", "INACTIVE", "EAppendOption 0 1 " + S("INACTIVE")}}, false},
+		{mk(), plain, "foo.v1", []EditRec{{"field", "foo/v1/a.j5s:Foo", "age scalar", "EAppendField 0 0 " + age.Coq(), ""},
+			{"option", "foo/v1/a.j5s:Status", "INACTIVE", "EAppendOption 0 1 " + S("INACTIVE"), ""}}, false},
 		// defect: the appended inline type Foo.Foo captures the relative name Foo.X of the existing field
-		{mk(), mk(fooP), "foo.v1", []EditRec{{"field", "foo/v1/a.j5s:Foo", "foo objinline", "EAppendIn 0 0 AtDecl [] (AField " + fooP.Coq() + ")"}}, false},
+		{mk(), mk(fooP), "foo.v1", []EditRec{{"field", "foo/v1/a.j5s:Foo", "foo objinline", "EAppendIn 0 0 AtDecl [] (AField " + fooP.Coq() + ")", ""}}, false},
 		// known finding: an enum without options; the appended option is its first, ends in UNSPECIFIED
 		// and therefore replaces the implicit zero value STATUS_UNSPECIFIED by STATUS_OLD_UNSPECIFIED
 		{emptyEnum(), emptyEnum("OLD_UNSPECIFIED"), "foo.v1",
-			[]EditRec{{"option", "foo/v1/a.j5s:Status", "OLD_UNSPECIFIED", "EAppendOption 0 0 " + S("OLD_UNSPECIFIED")}}, true},
+			[]EditRec{{"option", "foo/v1/a.j5s:Status", "OLD_UNSPECIFIED", "EAppendOption 0 0 " + S("OLD_UNSPECIFIED"), ""}}, true},
+		// seeded C13-D class, deterministic: a field referring to the type of the implicit leading field appended to
+		// a reqres request message / an upsert message (the implicit field must keep number 1, the old fields theirs)
+		{topicBundle("reqres", nil), topicBundle("reqres", fwd), "foo.v1",
+			[]EditRec{{"field", "foo/v1/a.j5s/topic:BazRequestMessage", "forwardedFor ref to implicit type RequestMetadata", "EAppendTopicField 0 0 0 " + fwd.Coq(), ""}}, false},
+		{topicBundle("upsert", nil), topicBundle("upsert", ups), "foo.v1",
+			[]EditRec{{"field", "foo/v1/a.j5s/topic:BazMessage", "prev ref to implicit type UpsertMetadata", "EAppendTopicField 0 0 0 " + ups.Coq(), ""}}, false},
+		// not the finding: an ordinary option, and the zero value spelled out, appended to an enum without options
+		{emptyEnum(), emptyEnum("ACTIVE", "OLD_UNSPECIFIED"), "foo.v1",
+			[]EditRec{{"option", "foo/v1/a.j5s:Status", "ACTIVE", "EAppendOption 0 0 " + S("ACTIVE"), ""},
+				{"option", "foo/v1/a.j5s:Status", "OLD_UNSPECIFIED", "EAppendOption 0 0 " + S("OLD_UNSPECIFIED"), ""}}, false},
 	}
 }
